@@ -325,6 +325,7 @@ pub fn panic_site(msg: &str) -> String {
 fn checked<S: Sub>(sub: &S, case: &S::Case, st: &mut Stats) -> Result<(), Fail> {
     let r = match no_panic(|| sub.check(case, st)) {
         Ok(r) => r,
+        Err(p) if p.contains(crate::util::SIGN_BUDGET_MESSAGE) => Err(Fail::new("sign:does-not-terminate", format!("sign did not return: {}", crate::util::SIGN_BUDGET_MESSAGE))),
         Err(p) => Err(Fail::new(format!("{}:panic:{}", sub.name(), panic_site(&p)), format!("panicked: {}", p))),
     };
     r.map_err(|mut f| {
